@@ -141,7 +141,8 @@ func fieldSetters(fd protoreflect.FieldDescriptor, depth int, reduced bool) []se
 				}
 			}}
 		}
-		out = append(out, mk("{k:v}", [2]int{0, 0}), mk("{'':''}", [2]int{1, 1}), mk("{2 keys}", [2]int{0, 2}, [2]int{2, 0}))
+		out = append(out, mk("{k:v}", [2]int{0, 0}), mk("{'':''}", [2]int{1, 1}), mk("{2 keys}", [2]int{0, 2}, [2]int{2, 0}),
+			mk("{a:x, long:''}", [2]int{0, 0}, [2]int{3, 1}), mk("{'':x, a:''}", [2]int{1, 2}, [2]int{0, 1}))
 		if !reduced {
 			out = append(out, mk("{3 keys}", [2]int{0, 1}, [2]int{1, 2}, [2]int{2, 3}))
 		}
@@ -185,6 +186,45 @@ func fieldSetters(fd protoreflect.FieldDescriptor, depth int, reduced bool) []se
 		}
 	}
 	return out
+}
+
+// growable returns a function that sets some string (or bytes) reachable in m to a value of the
+// given length (depth-first: a direct string field, a string list, a string-valued map, or a string
+// inside a singular sub-message), or nil if the message has none.
+func growable(m protoreflect.Message) func(protoreflect.Message, int) {
+	fds := m.Descriptor().Fields()
+	for i := 0; i < fds.Len(); i++ {
+		fd := fds.Get(i)
+		switch {
+		case fd.IsMap():
+			if fd.MapValue().Kind() == protoreflect.StringKind && fd.MapKey().Kind() == protoreflect.StringKind {
+				return func(x protoreflect.Message, n int) {
+					x.Mutable(fd).Map().Set(protoreflect.ValueOfString("k").MapKey(), protoreflect.ValueOfString(strings.Repeat("p", n)))
+				}
+			}
+		case fd.IsList():
+			if fd.Kind() == protoreflect.StringKind {
+				return func(x protoreflect.Message, n int) {
+					x.Mutable(fd).List().Append(protoreflect.ValueOfString(strings.Repeat("p", n)))
+				}
+			}
+		case fd.Kind() == protoreflect.StringKind:
+			return func(x protoreflect.Message, n int) { x.Set(fd, protoreflect.ValueOfString(strings.Repeat("p", n))) }
+		}
+	}
+	for i := 0; i < fds.Len(); i++ {
+		fd := fds.Get(i)
+		if fd.Kind() == protoreflect.MessageKind && !fd.IsMap() && !fd.IsList() {
+			sub, err := protoregistry.GlobalTypes.FindMessageByName(fd.Message().FullName())
+			if err != nil || fd.Message().FullName() == m.Descriptor().FullName() {
+				continue
+			}
+			if g := growable(sub.New()); g != nil {
+				return func(x protoreflect.Message, n int) { g(x.Mutable(fd).Message(), n) }
+			}
+		}
+	}
+	return nil
 }
 
 type stats struct {
@@ -385,6 +425,32 @@ func main() {
 			}
 		}
 		check(st, f.Prop, allSet(mt, depth).Interface(), "all fields set")
+		// length sweep: for every message-typed field, grow a string inside the nested message so that
+		// the nested encoding's size crosses the varint boundaries of its length prefix (127/128, 16383/16384)
+		for i := 0; i < fds.Len(); i++ {
+			fd := fds.Get(i)
+			if fd.Kind() != protoreflect.MessageKind || fd.IsMap() || fd.IsList() {
+				continue
+			}
+			sub, _ := protoregistry.GlobalTypes.FindMessageByName(fd.Message().FullName())
+			grow := growable(sub.New())
+			if grow == nil {
+				continue
+			}
+			ranges := [][2]int{{0, 260}}
+			if f.Thorough() || ti%4 == 0 {
+				ranges = append(ranges, [2]int{16100, 16400})
+			}
+			for _, r := range ranges {
+				for L := r[0]; L <= r[1]; L++ {
+					m := mt.New()
+					nested := sub.New()
+					grow(nested, L)
+					m.Set(fd, protoreflect.ValueOfMessage(nested))
+					check(st, f.Prop, m.Interface(), fmt.Sprintf("%s=nested message padded with a %d-byte string", fd.Name(), L))
+				}
+			}
+		}
 		if ti%8 == 0 {
 			res.Sample(map[string]any{"type": string(md.Name()), "example": fmt.Sprint(allSet(mt, 1).Interface())})
 		}
